@@ -103,3 +103,18 @@ func lemmaOXMLookupIndependent(name string, hasMask bool) bool {
 	}
 	return b != a && b.Class == c && b.Field == f && b.Length == l && b.HasMask == hasMask
 }
+
+// C01: the header-only controller messages, as built by their constructors, encode to exactly 8 bytes carrying
+// version 4, their type code and length 8 (verified by executing constructor and encoder symbolically).
+func lemmaFramedEchoRequest() []byte     { b, _ := NewEchoRequest().MarshalBinary(); return b }
+func lemmaFramedEchoReply() []byte       { b, _ := NewEchoReply().MarshalBinary(); return b }
+func lemmaFramedFeaturesRequest() []byte { b, _ := NewFeaturesRequest().MarshalBinary(); return b }
+func lemmaFramedConfigRequest() []byte   { b, _ := NewConfigRequest().MarshalBinary(); return b }
+
+// C01: a set-config message from its constructor, with any flags.
+func lemmaFramedSetConfig(flags, miss uint16) []byte {
+	c := NewSetConfig()
+	c.Flags, c.MissSendLen = flags, miss
+	b, _ := c.MarshalBinary()
+	return b
+}
